@@ -135,9 +135,9 @@ fn cli_interrupts(rep: &Report, n: usize, seed: u64) {
             *rng.pick(&[(0x21u8, 0x0Au8), (0x21, 1), (0x21, 2), (0x10, 0x0A), (0x10, 0x13)])
         };
         let seg: u16 = *rng.pick(&[0xFFFFu16, 0xFFFF, 0xF000, 0, 0xFFF0]);
-        let off: u16 = *rng.pick(&[0x000Eu16, 0x000F, 0xFFFF, 0xFFFE, 0, 0x0010, 0x00FF]);
+        let off: u16 = *rng.pick(&[0x000Eu16, 0x000F, 0xFFFF, 0xFFFE, 0, 0x0010, 0x00FF, 2, 8, 12, 13, 0x00F8]);
         let cxv: u16 = *rng.pick(&[0u16, 1, 5, 40, 300]);
-        let cap: u8 = *rng.pick(&[0u8, 1, 2, 5, 255]);
+        let cap: u8 = *rng.pick(&[0u8, 1, 2, 5, 20, 255, 255]);
         let stdin: Vec<u8> = match rng.below(6) {
             0 => vec![],
             1 => b"\n".to_vec(),
